@@ -2,7 +2,7 @@
    Statements only; proofs in Merge/AlgebraProofs.v. *)
 From Coq Require Import List.
 Import ListNotations.
-From NV Require Import Merge.Algebra Merge.AlgebraProofs.
+From NV Require Import Merge.Algebra Merge.AlgebraProofs Merge.ElabWf.
 
 Theorem C05_merge_closed : forall a b, wf a = true -> wf b = true -> wf (merge a b) = true.
 Proof. exact merge_wf. Qed.
@@ -29,3 +29,19 @@ Proof. exact (fun sat a b Ha Hb => f_equal (export sat) (merge_comm a b Ha Hb)).
 Theorem C05_export_assoc : forall sat a b c, wf a = true -> wf b = true -> wf c = true ->
   export sat (merge (merge a b) c) = export sat (merge a (merge b c)).
 Proof. exact (fun sat a b c Ha Hb Hc => f_equal (export sat) (merge_assoc_law a b c Ha Hb Hc)). Qed.
+
+(* on source expressions (what the generators print as Nickel programs): the side condition is
+   syntactic ([wfE]: arrays hold plain data) and well-formedness of the denotation is a theorem *)
+Theorem C05_elab_wf : forall e, wfE e = true -> wf (elab e) = true.
+Proof. exact elab_wf. Qed.
+
+Theorem C05_expr_comm : forall a b, wfE a = true -> wfE b = true ->
+  elab (EMerge a b) = elab (EMerge b a).
+Proof. exact elab_merge_comm. Qed.
+
+Theorem C05_expr_assoc : forall a b c, wfE a = true -> wfE b = true -> wfE c = true ->
+  elab (EMerge (EMerge a b) c) = elab (EMerge a (EMerge b c)).
+Proof. exact elab_merge_assoc. Qed.
+
+Theorem C05_expr_idem : forall a, wfE a = true -> elab (EMerge a a) = elab a.
+Proof. exact elab_merge_idem. Qed.
